@@ -216,6 +216,32 @@ def rule_filter_first(ck: Check, repo: Repo) -> None:
     r.floor(2, "tag-search sites", got=n)
 
 
+def rule_unbounded(ck: Check, repo: Repo, rid: str = "R5") -> None:
+    """'any number of blocks may follow one another': the filter must not consume one stack frame per block, and the
+    kept pieces must not be fused into one line."""
+    r = ck.rule(rid, "the filter handles any number of blocks (no recursion per block) and keeps the pieces around a block apart")
+    q = f"{EX}.filter_ignore_block"
+    fn = repo.func(q)
+    rec = [c for c in ast.walk(fn) if isinstance(c, ast.Call) and ast.unparse(c.func) == "filter_ignore_block"]
+    loops = [n for n in ast.walk(fn) if isinstance(n, (ast.While, ast.For))]
+    r.instance("iteration", {"recursive_calls": len(rec), "loops": len(loops)}, q)
+    if rec:
+        r.violation(q, "one recursive call per ignore block",
+                    f"`{ast.unparse(rec[0])[:60]}`: the recursion depth equals the number of blocks; a text with about a thousand blocks"
+                    f" (a file with SPDX-SnippetBegin is read whole) ends in RecursionError and the file contributes nothing",
+                    repo.loc(rec[0]))
+    # kept pieces: text[:start] + <rest> with nothing in between
+    joins = [b for b in ast.walk(fn) if isinstance(b, ast.BinOp) and isinstance(b.op, ast.Add)
+             and isinstance(b.left, ast.Subscript) and isinstance(b.right, ast.Call) and ast.unparse(b.right.func) == "filter_ignore_block"]
+    r.instance("joins", {"direct_concatenations": len(joins)}, q)
+    if joins:
+        r.violation(q, "the text before a block and the text after it are concatenated directly",
+                    f"`{ast.unparse(joins[0])[:70]}`: when the start marker follows a tag on the same line and the end marker precedes"
+                    f" another tag on its line, the two tags end up on one line and are read as ONE value (neither contributes)",
+                    repo.loc(joins[0]))
+
+
+
 def run(ck: Check, repo: Repo) -> None:
     ck.explanation = (
         "R1: package-wide lint with value intervals: a local assigned from str.index/find (+ positive constant"
@@ -239,6 +265,7 @@ def run(ck: Check, repo: Repo) -> None:
     rule_index_truthiness(ck, repo, folder)
     rule_branch_table(ck, repo, folder)
     rule_filter_first(ck, repo)
+    rule_unbounded(ck, repo)
     # 'the scanned text': one window per file, decoded once and filtered as ONE text - a block that is open at a cut
     # between two separately filtered pieces would be forgotten (shared with C02-R5)
     from . import c02
